@@ -198,7 +198,7 @@ def _binary_auroc_update_input_check(
             raise ValueError(
                 f"`num_tasks = 1`, `input` is expected to be one-dimensional tensor, but got shape ({input.shape})."
             )
-    elif len(input.shape) == 1 or input.shape[0] != num_tasks:
+    elif len(input.shape) != 2 or input.shape[0] != num_tasks:
         raise ValueError(
             f"`num_tasks = {num_tasks}`, `input`'s shape is expected to be ({num_tasks}, num_samples), but got shape ({input.shape})."
         )
